@@ -54,9 +54,11 @@ DROPS = ('member functions -> C functions with explicit self; references -> poin
          'std::function callback parameter -> call of the callback model; string_vprintf(fmt, va) -> byte-string parameter; member-initialiser lists -> assignments; '
          'arithmetic sub-expressions with * or / outlined into helper functions (same text); union DataPtrs -> its single pointer (see TRUSTED); malloc -> verif_malloc (non-null)')
 NOT_DECIDED = [
-    'draw_line (Bresenham with double-precision error accumulation): decided for any end points are only "out_of_range never escapes" and "a changed pixel gets exactly the colour" '
-    '(the slope expression is outlined and unconstrained); NOT decided: connectedness, pixel count max(|dx|,|dy|)+1, end points contained, distance from the ideal segment (floating-point '
-    'path; no bounded check was built).  Observation: when the first end point (after the internal swap) lies outside the canvas the loop stops at once, e.g. draw_line(5,5,-3,5) draws nothing',
+    'draw_line (Bresenham with double-precision error accumulation; the slope expression is outlined and unconstrained): decided for any end points are "out_of_range never escapes", '
+    '"a changed pixel gets exactly the colour" and the path facts that do not depend on floating point (ghost record of the pixels handed to write_pixel): the path is connected '
+    '(8-adjacent, no pixel repeated), starts at one of the two end points, and for two in-canvas end points consists of exactly max(|dx|,|dy|)+1 pixels ending on the major-axis '
+    'coordinate of the other end point unless the walk left the canvas; NOT decided: the minor-axis coordinate of the far end ("contains both ends" in full) and the distance from the '
+    'ideal segment (floating-point path).  Observation: when the first end point (after the internal swap) lies outside the canvas the loop stops at once, e.g. draw_line(5,5,-3,5) draws nothing',
     'resize_blit (floating point bilinear filter; it also lets out_of_range escape by design of read_pixel on source coordinates): not under contract',
     'which pixels a DASHED axis line colours and which pixels a line that starts outside the canvas colours: the code stops at the first out-of-canvas pixel (a horizontal line from x1 < 0 '
     'draws nothing); decided here: no exception, nothing off the segment changes, a changed pixel gets exactly the colour, a solid line between in-canvas end points is complete',
@@ -84,7 +86,7 @@ MANIFEST = dict(
           'whole-buffer operations (set_channel_width, set_has_alpha, copy) are proved against memory for bounded canvas dimensions (<= 8/16 resp. < 8/32), reported as bounded.  Found and '
           'fixed: mask_blit(.., mask) let out_of_range escape when sx or sy > 0 (mask checked against w,h only).'),
     note=('Trusted: cbmc/goto-instrument/solvers, the extractor, the specification macros, the canonical accessor/helper models (stubs/C07_pixel_model.h; model |= contract is proved, the link to '
-          'memory is the shared clause macros).  Blend arithmetic is pinned to the commit (regression-strength); draw_line, resize_blit, dashed/out-of-canvas line pixels and the composition of text cells into a whole text are '
+          'memory is the shared clause macros).  Blend arithmetic is pinned to the commit (regression-strength); the floating-point part of draw_line's path (its integer part -- connected, max(|dx|,|dy|)+1 pixels from an end point -- is under contract), resize_blit, dashed/out-of-canvas line pixels and the composition of text cells into a whole text are '
           'not decided (each text cell is: glyph pixels over the opaque background box, any cursor position).  Distinct source/mask/destination, stateless callbacks, successful allocation, int-counted variants up to INT_MAX-sized canvases are assumed.'),
     technique='function + nested loop contracts over a ghost pixel (goto-instrument --dfcc --apply-loop-contracts), clamp by a chain of ghost-flag lemmas, outlined arithmetic proved by SMT, '
               'bounded memory-level obligations for the index arithmetic',
@@ -794,7 +796,7 @@ def plan(ctx):
         G('draw_%s_line' % ax, 'draw_%s_line' % ax, 'Image::draw_%s_line' % ax, 'Image_draw_%s_line' % ax, loops=True)
         G('draw_%s_line(uint32)' % ax, 'draw_%s_line_c' % ax, 'Image::draw_%s_line(.., color)' % ax, 'Image_draw_%s_line_c' % ax, replace=['Image_draw_%s_line' % ax])
         G('draw_%s_line.dash_selector' % ax, 'x_%s_div1' % ax[0], 'Image::draw_%s_line (outlined expression x / dash_length)' % ax, 'x_%s_div1' % ax[0], model=False)
-    G('draw_line', 'draw_line', 'Image::draw_line (no exception, colour of changed pixels; the path itself is not decided)', 'Image_draw_line', loops=True)
+    G('draw_line', 'draw_line', 'Image::draw_line (no exception, colour of changed pixels, connected path of max(|dx|,|dy|)+1 pixels from an end point)', 'Image_draw_line', loops=True)
     G('draw_line(uint32)', 'draw_line_c', 'Image::draw_line(.., color)', 'Image_draw_line_c', replace=['Image_draw_line'])
     G('draw_text_v', 'draw_text_v', 'Image::draw_text_v', 'Image_draw_text_v', replace=['Image_fill_rect'], loops=True)
     G('draw_text_v.cell', 'draw_text_cell', 'Image::draw_text_v (body of the character loop)', 'Image_draw_text_cell', replace=['Image_fill_rect'] + PIXC, loops=True)
